@@ -132,9 +132,23 @@ class QueryFamily:
             d = dict(case)
             d['cond'] = c2
             return self.normalise(d)
+
+        def the_in_place(c2, left_of_or=False):
+            """a the(...) in condition position stays the LEFT branch of a disjunction (elsewhere it raises when it has no solution)"""
+            if c2 is None:
+                return True
+            if c2[0] == 'sub':
+                return (left_of_or or not (len(c2) > 3 and c2[3] == 'the')) and the_in_place(c2[2])
+            if c2[0] == 'or':
+                return the_in_place(c2[1], True) and the_in_place(c2[2])
+            if c2[0] == 'and':
+                return the_in_place(c2[1]) and the_in_place(c2[2])
+            if c2[0] in ('not', 'forall'):
+                return the_in_place(c2[1] if c2[0] == 'not' else c2[2])
+            return True
         # replace the condition by a sub-condition, drop domain elements, drop heap tail, drop selections
         for sub in subconds(c):
-            if sub is not c:
+            if sub is not c and the_in_place(sub):
                 yield with_cond(sub)
         for i, (k, dom) in enumerate(case['doms']):
             for j in range(len(dom)):
